@@ -203,11 +203,12 @@ struct WorkerResult {
 fn arg_value(args: &[String], name: &str) -> Option<String> { args.iter().position(|a| a == name).and_then(|i| args.get(i + 1)).cloned() }
 
 fn mute_stdout() {
-    // the pool prints a line per job
+    // the pool prints a line per job; its workers print a line to stderr when the channel closes - once per worker and execution, which adds up to a
+    // gigabyte of log per engine worker in a thorough run. Both go to /dev/null (RWSV_SCHED_STDERR=1 keeps stderr); verdicts travel through the result file.
     unsafe {
         let devnull = std::ffi::CString::new("/dev/null").unwrap();
         let fd = libc_open(devnull.as_ptr());
-        if fd >= 0 { dup2(fd, 1); }
+        if fd >= 0 { dup2(fd, 1); if std::env::var("RWSV_SCHED_STDERR").is_err() { dup2(fd, 2); } }
     }
 }
 extern "C" { fn dup2(old: i32, new: i32) -> i32; #[link_name = "open"] fn open_c(path: *const std::os::raw::c_char, flags: i32, ...) -> i32; }
